@@ -317,6 +317,30 @@ fn run(ctx: &mut Ctx) {
             }
         }
     }
+    // a line that is too long once substituted ends the run with status 1 — after every line before it
+    // has had its run (in every spelling of the option), not instead of them
+    if ctx.shard == 0 {
+        for opts in [vec!["-I", "{}"], vec!["-i"], vec!["--replace"], vec!["-I{}"], vec!["--replace=R"]] {
+            let r = if opts[0] == "--replace=R" { "R" } else { "{}" };
+            let t1 = format!("x{r}");
+            let t2 = format!("{r}{r}");
+            let tp = vec![t1.as_str(), t2.as_str()];
+            let mut o: Vec<String> = vec!["-s".into(), "40".into()];
+            o.extend(opts.iter().map(|s| s.to_string()));
+            let input = b"aa\nb b\nqqqqqqqqqqqqqqqqqqqq\nzz\n";
+            let got = exec(&file, &o, &tp, input);
+            ctx.rep.evaluations += 1;
+            ctx.rep.nontrivial += 1;
+            let want: Vec<Vec<Vec<u8>>> = vec![vec![b"cmd".to_vec(), b"xaa".to_vec(), b"aaaa".to_vec()], vec![b"cmd".to_vec(), b"xb b".to_vec(), b"b bb b".to_vec()]];
+            if got.inv != want || got.code != Ok(1) {
+                ctx.rep.violation(
+                    "C20 a line too long after substitution: the lines before it are not all run (or the status is not 1)",
+                    format!("xargs {:?} cmd {:?} < {:?}\n expected runs {} then status 1\n actual   {} status {:?} stderr {:?}", o, tp, String::from_utf8_lossy(input), show(&want), show(&got.inv), got.code, String::from_utf8_lossy(&got.err)),
+                    json!({"prop":"C20","mode":"too_long_line"}),
+                );
+            }
+        }
+    }
     scale_slice(ctx);
     binary_slice(ctx);
     let _ = std::fs::remove_file(&file);
